@@ -15,6 +15,7 @@ import (
 	"os"
 	"os/exec"
 	"reflect"
+	"runtime"
 	"sort"
 	"strings"
 	"sync/atomic"
@@ -123,6 +124,7 @@ type step struct {
 	Fm      headMap  `json:"fm"`
 	Sent    bool     `json:"sent"`
 	Deleted []string `json:"deleted"`
+	Offs    []int64  `json:"offs"`
 	Exp     *exp     `json:"exp"`
 }
 
@@ -384,6 +386,18 @@ func (r *runner) exec(st *step) error {
 		r.wOff = append(r.wOff, st.Off)
 		r.wT = append(r.wT, st.T)
 		r.wNode = append(r.wNode, st.N)
+	case "Cancel":
+		// the client gives up on its pending writes on that leader: nothing may change
+		for i, w := range s.Writes() {
+			if w.Node != st.N || w.Done {
+				continue
+			}
+			for _, o := range st.Offs {
+				if o == r.wOff[i] {
+					s.CancelWrite(i)
+				}
+			}
+		}
 	case "Sync":
 		if err := s.Release("sync", st.N, st.N, r.timeout); err != nil {
 			return err
@@ -497,6 +511,7 @@ type result struct {
 	Mismatches  []mismatch     `json:"mismatches"`
 	Unconfirmed int            `json:"unconfirmed"`
 	Crashes     int            `json:"crashes"`
+	Hung        int            `json:"hung"`
 }
 
 // worker: replays the behaviours of one file, one JSON line of progress per event on stdout:
@@ -534,7 +549,20 @@ func workerMain(args []string) {
 			os.Exit(2)
 		}
 		_ = enc.Encode(map[string]any{"start": i})
+		// watchdog: a behaviour that takes minutes means the harness (or the node) is stuck
+		wd := time.AfterFunc(90*time.Second, func() {
+			fmt.Fprintln(os.Stderr, "verif harness watchdog: behaviour stuck")
+			buf := make([]byte, 1<<20)
+			buf = buf[:runtime.Stack(buf, true)]
+			for _, g := range strings.Split(string(buf), "\n\n") {
+				if strings.Contains(g, "verif/harness") || strings.Contains(g, "oxia/server.") {
+					fmt.Fprintln(os.Stderr, g)
+				}
+			}
+			os.Exit(3)
+		})
 		mm, err := replayOne(beh, *timeout)
+		wd.Stop()
 		if err != nil {
 			fmt.Fprintln(os.Stderr, "harness failure:", err)
 			os.Exit(2)
@@ -621,6 +649,7 @@ func main() {
 		mm          []mismatch
 		unconfirmed int
 		crashes     int
+		hung        int
 		err         error
 	}
 	ch := make(chan wres, *workers)
@@ -696,6 +725,14 @@ func main() {
 					if len(msg) > 1500 {
 						msg = msg[:1500]
 					}
+					if strings.Contains(errb.String(), "verif harness watchdog") {
+						r.hung++
+						if r.hung <= 2 {
+							fmt.Fprintln(os.Stderr, "behaviour stuck (skipped):", errb.String()[:min(len(errb.String()), 3000)])
+						}
+						skip = started + 1
+						continue
+					}
 					if strings.Contains(msg, "harness failure") || strings.Contains(msg, "verif/harness") && !strings.Contains(msg, "github.com/oxia-db/oxia/server") {
 						r.err = fmt.Errorf("worker failed: %s", msg)
 						break
@@ -720,6 +757,7 @@ func main() {
 		res.Mismatches = append(res.Mismatches, r.mm...)
 		res.Unconfirmed += r.unconfirmed
 		res.Crashes += r.crashes
+		res.Hung += r.hung
 		if r.err != nil {
 			ferr = r.err
 		}
